@@ -64,7 +64,7 @@ def model_line(cid, sg: Graph, dg: Graph, opts=None, focus=(), use_shapes=(), rx
     templates = {constraint node: {"minus":.., "values":.., "service":.., "nested": [vars]|None, "asVar": str|None, "usesPath":.., "usesSG":..}}"""
     opts = opts or {}
     if rx is None:
-        rx = regex_table(sg, dg)
+        rx = regex_table(sg, dg, extra_strings=[str(f) for f in focus])
     with wire.case_cache():
         line = _model_line(cid, sg, dg, opts, focus, use_shapes, rx)
         if sparql is not None:
